@@ -1,7 +1,7 @@
 (* Dispatch of case lines to the per-property drivers. *)
 From Coq Require Import List ZArith String Ascii Bool Arith.
 From SMD Require Import Base.Sexp Model.Value Model.Schema Model.Codec
-  Driver.Common Driver.Algebra Driver.Typed Driver.Hist Driver.Serial Driver.Effects.
+  Driver.Common Driver.Algebra Driver.Typed Driver.Hist Driver.Serial Driver.Effects Driver.Refl.
 Import ListNotations.
 Open Scope string_scope.
 
@@ -65,6 +65,8 @@ Definition run_case (st : dstate) (x : sexp) : dstate * outcome :=
       end
   | SList [SAtom "c09.allocators"; a; b] => (st, run_c09_allocators a b)
   | SList [SAtom "c10.run"; a; b; c] => (st, run_c10 a b c)
+  | SList [SAtom "c18.view"; a; b; c; d; e; f] => (st, run_c18_view a b c d e f)
+  | SList [SAtom "c18.codec"; a; b; c] => (st, run_c18_codec a b c)
   | SList [SAtom "c16.roundtrip"; a; b; c; d; e] => (st, run_c16_roundtrip a b c d e)
   | SList (SAtom "c16.perm" :: a :: b :: res) => (st, run_c16_perm a b res)
   | SList (SAtom "c16.parse" :: a :: res) => (st, run_c16_parse a res)
